@@ -4,6 +4,7 @@
 mod ops;
 mod ctxgen;
 mod jit;
+mod remap;
 
 use fidget_core::compiler::{RegOp, RegTape, SsaOp, SsaTape};
 use fidget_core::eval::{BulkEvaluator, Function, TracingEvaluator};
@@ -448,6 +449,7 @@ fn main() {
         }
         "jit" => jit::mode_jit(&args[2..]),
         "jitrun" => jit::mode_jitrun(&args[2..]),
+        "remap" => remap::mode_remap(),
         m if ctxgen::dispatch(m, &args[2..]) => (),
         m => panic!("unknown mode {m}"),
     }
